@@ -11,6 +11,6 @@ def seed_corrcoef(seed, target):
     xx = np.sum(x ** 2, -1)
     yy = np.sum(y ** 2, -1)
     xy = np.dot(x, y)
-    r = xy / np.sqrt(xx * yy)
+    r = xy / (np.sqrt(xx) * np.sqrt(yy))
 
     return r
